@@ -38,6 +38,17 @@ pub struct RawBytes { pub h: u64 }
 pub struct Response { pub exit_code: ExitCode, pub return_data: Option<IpldBlock> }
 pub struct SendError(pub u32);
 
+/// runtime/src/builtin/shared.rs `impl From<SendError> for ActorError`: a syscall-level send failure becomes an actor error
+pub uninterp spec fn send_error_code(errno: u32) -> u32;
+impl vstd::std_specs::convert::FromSpecImpl<SendError> for ActorError {
+    open spec fn obeys_from_spec() -> bool { true }
+    open spec fn from_spec(e: SendError) -> ActorError { ActorError { code: send_error_code(e.0) } }
+}
+impl From<SendError> for ActorError {
+    #[verifier::external_body]
+    fn from(e: SendError) -> (r: ActorError) { unimplemented!() }
+}
+
 /// one record per `send` syscall issued by this activation
 pub struct SendRec {
     pub to: Address,
